@@ -429,6 +429,20 @@ func (v *vCtx) runOp(ctx context.Context, op map[string]any) (res map[string]any
 		}
 		res["closed"] = closed
 		return
+	case "http_push_go":
+		// run the push streamer of a subscription for a short while (a panic on one of its goroutines kills the process)
+		id := uuid.MustParse(op["subscription_id"].(string))
+		sub, err := v.client.Subscription.Get(ctx, id)
+		if err != nil {
+			v.t.Fatal(err)
+		}
+		cctx, cancel := context.WithTimeout(ctx, time.Duration(vInt(op["timeout_ms"]))*time.Millisecond)
+		defer cancel()
+		p := actions.NewHttpPusher(sub.Name, sub.ID, *sub.PushEndpoint, nil, v.client)
+		if err := p.Go(cctx); err != nil {
+			res["err"] = err.Error()
+		}
+		return
 	case "parse_interval":
 		d, err := sqltypes.ParsePostgreSQLInterval(op["s"].(string))
 		if err != nil {
